@@ -121,6 +121,12 @@ func exprs() []poolExpr {
 		{text: "splitDoc"},
 		{text: "document_index"},
 		{text: ".a | test(\"^x\")"},
+		// patterns and replacements that depend on the document through string interpolation
+		{text: "[.. | select(tag == \"!!str\") | test(\"^\\(.)$\")]"},
+		{text: "[.. | select(tag == \"!!str\") | sub(\"^\\(.)$\"; \"R\")]"},
+		{text: "[.. | select(tag == \"!!str\") | [match(\"\\(.)\") | .string]]"},
+		{text: ".a as $p | [.. | select(tag == \"!!str\") | test(\"\\($p)\")]"},
+		{text: "[.. | select(tag == \"!!str\") | capture(\"(?P<v>\\(.))\")]"},
 		{text: "[.b[] | select(. > 1)] | min, max"},
 		{text: "pick([\"a\", \"c\"])"},
 		{text: ".. | select(anchor != \"\") | anchor"},
